@@ -1,0 +1,72 @@
+//go:build verif
+
+// Verification contracts for cmd/proxy, property C31 (comment-only; read by /verif/govc).
+// This file contains no executable code.
+//
+// C31: "each record flagged for large-file handling gets a value that is a valid envelope for a new object holding
+// exactly the original value, and loses only its flag header. Every other record, key, header, timestamp, order and
+// count stays the same. Each rewritten batch has a correct length and CRC and keeps its compression codec."
+// Decided here: the byte-framing and bookkeeping around the codec - header filtering, batch splitting / joining,
+// the record count of a decoded batch, which records are uploaded / rewritten, and the length / CRC / attribute patch
+// sequence of a rewritten batch. The record and batch codecs themselves (kmsg Record / RecordBatch ReadFrom / AppendTo,
+// binary.PutVarint, kgo compressors, crc32) are outside contracts.
+
+package main
+
+// ---- headers ----
+//@ func lfsFindHeaderValue
+//@   ensures [C31.find_header_first_match] result1 ==> exists k int :: 0 <= k && k < len(headers) && headers[k].Key == key && sameSlice(result0, headers[k].Value) && (forall j int :: 0 <= j && j < k ==> headers[j].Key != key)
+//@   ensures [C31.find_header_absent] !result1 ==> len(result0) == 0 && (forall k int :: 0 <= k && k < len(headers) ==> headers[k].Key != key)
+//@   loop 1 invariant -1 <= rangeindex && rangeindex < len(headers) && (forall j int :: 0 <= j && j <= rangeindex ==> headers[j].Key != key)
+
+// lfsDropHeader is an order-preserving filter: a header is appended iff its key differs, the appended header is the
+// input header, the output never holds the dropped key, and the input is not written.
+//@ func lfsDropHeader
+//@   ghost gn int = 0
+//@   ensures [C31.drop_header_empty_unchanged] len(headers) == 0 ==> sameSlice(result, headers)
+//@   ensures [C31.drop_header_result_has_no_such_key] len(result) <= len(headers) && (forall k int :: 0 <= k && k < len(result) ==> result[k].Key != key)
+//@   ensures [C31.drop_header_input_not_written] forall k int :: 0 <= k && k < len(headers) ==> headers[k] == old(headers[k])
+//@   loop 1 invariant -1 <= rangeindex && rangeindex < len(headers) && len(out) <= rangeindex + 1 && cap(out) == len(headers) && len(headers) > 0 && base(out) != base(headers)
+//@   loop 1 invariant (forall k int :: 0 <= k && k < len(out) ==> out[k].Key != key) && (forall k int :: 0 <= k && k < len(headers) ==> headers[k] == old(headers[k]))
+//@   at append#1 before assert [C31.drop_header_keeps_other_headers_in_order] len(arg1) == 1 && arg1[0] == headers[rangeindex] && headers[rangeindex].Key != key
+//@   at append#1 before set gn = gn + 1
+//@   at loopstep#1 assert [C31.drop_header_keeps_iff_other_key] gn == ite(headers[rangeindex].Key != key, 1, 0)
+
+// ---- batch framing ----
+// lfsDecodeRecordBatches tiles the input: every frame handed to the batch decoder and stored as Raw starts where the
+// previous one ended, is 12 + (big-endian int32 at offset 8) bytes long, and on success the frames cover the input.
+//@ func lfsDecodeRecordBatches
+//@   ghost gstart int = 0
+//@   ghost glen int = 0
+//@   loop 1 invariant [C31.split_remainder_is_suffix] base(buf) == base(records) && off(buf) >= off(records) && off(buf) + len(buf) == off(records) + len(records)
+//@   at ReadFrom#1 before assert [C31.split_decodes_exact_frame] sameSlice(arg0, buf[0 : total]) && total == 12 + length && length >= 0 && total <= len(buf)
+//@   at append#1 before assert [C31.split_raw_is_exact_frame] len(arg1) == 1 && sameSlice(arg1[0].Raw, buf[0 : total])
+//@   at append#1 before set gstart = off(buf)
+//@   at append#1 before set glen = total
+//@   at loopstep#1 assert [C31.split_frames_are_consecutive] off(buf) == gstart + glen && glen >= 12
+//@   ensures [C31.split_error_or_all] err != nil ==> len(result0) == 0
+
+//@ func lfsJoinRecordBatches
+//@   ghost gn int = 0
+//@   ensures [C31.join_empty] len(batches) == 0 ==> len(result) == 0
+//@   loop 2 invariant [C31.join_in_order] -1 <= rangeindex_2 && rangeindex_2 < len(batches)
+//@   at append#1 before assert [C31.join_appends_raw_in_order] sameSlice(arg1, batches[rangeindex_2].Raw)
+//@   at append#1 before set gn = gn + 1
+//@   at loopstep#2 assert [C31.join_each_batch_once] gn == 1
+
+// ---- records of a batch ----
+//@ func lfsReadRawRecordsInto
+//@   loop 1 invariant [C31.read_remainder_is_suffix] -1 <= rangeindex && rangeindex < len(rs) && base(in) == base(old(in)) && off(in) >= off(old(in)) && off(in) + len(in) == off(old(in)) + len(old(in))
+//@   at ReadFrom#1 before assert [C31.read_decodes_exact_frame] 0 <= total && total <= len(in) && sameSlice(arg0, in[0 : total])
+//@   ensures [C31.read_returns_prefix_and_rest] len(result0) <= len(rs) && base(result0) == base(rs) && off(result0) == off(rs) && base(result1) == base(old(in)) && off(result1) + len(result1) == off(old(in)) + len(old(in))
+
+//@ func lfsDecodeBatchRecords
+//@   requires batch != nil
+//@   ghost grest int = 0
+//@   ghost gdecoded int = 0
+//@   at lfsReadRawRecordsInto#1 after set grest = len(ret1)
+//@   at lfsReadRawRecordsInto#1 after set gdecoded = len(ret0)
+//@   ensures [C31.decode_returns_all_records] err == nil ==> len(result0) == int(old(batch.NumRecords)) && gdecoded == len(result0)
+//@   ensures [C31.decode_leaves_no_record_bytes] err == nil ==> grest == 0
+//@   ensures [C31.decode_error_no_records] err != nil ==> len(result0) == 0
+//@   ensures [C31.decode_codec_is_batch_codec] int(result1) == int(old(batch.Attributes)) & 7
